@@ -230,7 +230,7 @@ pub fn form_exp(l: crate::layout::L, form: &str, r: &crate::big::Big) -> Exp {
     match form {
         "checked" => Exp::Is(Out::O(if fits { Some(wr) } else { None })),
         "saturating" => Exp::Is(Out::V(l.clamp(r))),
-        "wrapping" => Exp::Is(Out::V(wr)),
+        "wrapping" | "Wrapping" => Exp::Is(Out::V(wr)),
         "overflowing" => Exp::Is(Out::F(wr, !fits)),
         _ => {
             if fits {
